@@ -23,6 +23,7 @@ RULE = ("special compositions (only K / R / H / D,E / C,Y, no titratable residue
         "distinct = distinct (titratable-residue multiset, length); non-trivial = at least one titratable residue")
 RULE += ("; added after the mutation rounds: numpy float64 / int64 pH values; ordered groups of sequences (poly-R before non-titrating ones) with 15 repeated pI calls per object; history salt incl. phosphosites left set; the first cases of every shard are judged again at its end")
 RULE += ("; round 8: an isoelectric point beyond the scale handed back as pH (must be rejected)")
+RULE += ("; round 10: a single titratable residue in an inert chain at every length 2-260 (thorough 700)")
 EXHAUSTIVE = {"quick": False, "thorough": False}
 ASSUMPTIONS = [
     "documented pKa: C 8.5, Y 10.1, H 6.5, E 4.1, D 3.9, K 10.0, R 12.5; positive K,R,H; negative D,E,C,Y",
